@@ -67,8 +67,10 @@ structure GcOut where
   w : WState
   /-- reference objects whose referent field the collector cleared -/
   cleared : List Nat
-  /-- the marked set at the end of the pause (after finalizer resurrection) -/
+  /-- `is_live` at the end of the pause (after finalizer resurrection): marked or never collected -/
   live : Array Bool
+  /-- the marked set at the end of the pause -/
+  marked : Array Bool
   /-- enqueued in this pause -/
   enqNow : List Nat
 
@@ -129,10 +131,43 @@ def gcStages (i : GcIn) (w : WState) : GcOut :=
     cleared := (w.soft ++ w.weak ++ w.phantom).filter fun r =>
       (referentOf i.heap r).isSome && ((phantom2 i w).referent r).isNone
     live := (Array.range i.heap.objs.size).map (live2 i w)
+    marked := marked2 i w
     enqNow := enqNow }
 
 /-- `get_all_finalizers`: candidates and ready objects are handed out, nothing stays registered. -/
 def finTakeAll (s : RefProc.FinState) : RefProc.FinState × List (Nat × Nat) :=
   ({ s with candidates := [], ready := [], popped := s.popped ++ (s.candidates ++ s.ready) }, s.candidates ++ s.ready)
+
+/-! ## C13: the ephemeron table of the VerifVM binding (harness/src/rt.rs `process_weak_refs`)
+
+Every call traces the values of the entries whose key is reachable and whose value has not been traced in this
+pause, and answers `true` iff there was such an entry; the call that finds none drops the entries with unreachable
+keys and answers `false`. This is the VM side of the protocol (not mmtk-core): the monitor needs it to predict how
+many rounds a pause takes and which entries survive. -/
+
+def markedIds (m : Array Bool) : List Nat := (List.range m.size).filter fun i => m.getD i false
+
+/-- `(answers so far, marked set)` after the remaining rounds; `pend` = entries not traced yet -/
+def ephLoop (h : Heap) (imm : Id → Bool) : Nat → Array Bool → List (Nat × Nat) → List Bool → List Bool × Array Bool
+  | 0, m, _, rets => (rets, m)
+  | fuel + 1, m, pend, rets =>
+    -- `ObjectReference::is_reachable`: marked (also for never-collected spaces: ImmortalSpace::is_reachable tests the mark)
+    let live := fun x => m.getD x false
+    let now := pend.filter fun e => live e.1
+    if now.isEmpty then (rets ++ [false], m)
+    else ephLoop h imm fuel (reachFrom h (markedIds m ++ now.map (·.2))) (pend.filter fun e => !live e.1) (rets ++ [true])
+
+structure EphOut where
+  /-- the answers of `process_weak_refs` in this pause -/
+  rets : List Bool
+  marked : Array Bool
+  /-- surviving entries (key reachable at the end), in table order -/
+  table : List (Nat × Nat)
+  dropped : List (Nat × Nat)
+
+def ephRounds (h : Heap) (imm : Id → Bool) (marked0 : Array Bool) (table : List (Nat × Nat)) : EphOut :=
+  let (rets, m) := ephLoop h imm (table.length + 1) marked0 table []
+  let live := fun x => m.getD x false
+  { rets := rets, marked := m, table := table.filter (fun e => live e.1), dropped := table.filter (fun e => !live e.1) }
 
 end Mmtk.WeakMon
